@@ -263,7 +263,8 @@ def run(ctx):
     quick = ctx.tier == "quick"
     w0 = W.World(WF, files={"nested/dir/keep": (1, "k")}, conf=None)
     w1 = W.World(WF, files={"nested/dir/keep": (1, "k")}, conf={"a": 1, "a.b": "x", "backend": "slurm"})
-    e2.bfs(ctx, me, "conf_expand", [w0, w1], 2 if quick else 2, chunk=2, keys=KEYS_FULL if not quick else ["a", "a.b", "a.bc", "verbose", "clean_logs", "neverset", "backend.slurmx.y"],
+    prefix = [["set", "a", "1"], ["set", "a.b", "x"], ["set", "backend", "slurm"]]
+    e2.bfs(ctx, me, "conf_expand", [w0, (w1, prefix)], 2 if quick else 2, chunk=2, keys=KEYS_FULL if not quick else ["a", "a.b", "a.bc", "verbose", "clean_logs", "neverset", "backend.slurmx.y"],
            values=VALUES_FULL if not quick else ["5", "-3", "yes", "false", "True", "", "text", "a b"])
     e2.bfs(ctx, me, "conf_expand", [w0], 3 if quick else 4, chunk=2, keys=["a", "a.b", "verbose"], values=["5", "no", "é"])
     bk = [None, "slurm", "sge", "lsf", "local"]
